@@ -455,3 +455,35 @@ Proof.
   - intros i. destruct i as [|[|i]]; cbn; discriminate.
   - cbn. discriminate.
 Qed.
+
+(* ------------------------------------------------------------------ the serialisation only reorders: nothing is dropped or invented *)
+From Coq Require Import Permutation.
+
+Lemma ser_step_perm : forall A C x, Permutation (A ++ C ++ [x]) (fst (ser_step (A, C) x) ++ snd (ser_step (A, C) x)).
+Proof.
+  intros A C x. unfold ser_step. destruct C as [|y C'].
+  - cbn [app]. destruct (snd x); cbn [fst snd]; rewrite ?app_nil_r; apply Permutation_refl.
+  - destruct (Nat.eqb (fst x) (fst y)).
+    + destruct (snd x); cbn [fst snd]; rewrite ?app_nil_r; apply Permutation_refl.
+    + cbn [fst snd]. rewrite <- !app_assoc. apply Permutation_app_head. cbn [app].
+      apply Permutation_sym. apply (Permutation_cons_app (y :: C') [] x). rewrite app_nil_r. apply Permutation_refl.
+Qed.
+
+Lemma fold_ser_perm : forall tr A C,
+  Permutation (A ++ C ++ tr) (fst (fold_left ser_step tr (A, C)) ++ snd (fold_left ser_step tr (A, C))).
+Proof.
+  induction tr as [|x tr IH]; intros A C; cbn [fold_left].
+  - rewrite app_nil_r. apply Permutation_refl.
+  - destruct (ser_step (A, C) x) as [A' C'] eqn:E.
+    eapply Permutation_trans; [|apply IH].
+    pose proof (ser_step_perm A C x) as P. rewrite E in P. cbn [fst snd] in P.
+    replace (A ++ C ++ x :: tr) with ((A ++ C ++ [x]) ++ tr) by (rewrite <- !app_assoc; reflexivity).
+    replace (A' ++ C' ++ tr) with ((A' ++ C') ++ tr) by (rewrite <- app_assoc; reflexivity).
+    apply Permutation_app_tail. exact P.
+Qed.
+
+Theorem ser_permutation : forall tr, Permutation tr (ser tr).
+Proof.
+  intros tr. unfold ser. pose proof (fold_ser_perm tr [] []) as P. cbn [app] in P.
+  destruct (fold_left ser_step tr ([], [])) as [A C]. exact P.
+Qed.
